@@ -2,6 +2,7 @@ import Rbdl
 import Rbdl.AlgDriver
 import Rbdl.GeomDriver
 import Rbdl.BalDriver
+import Rbdl.LuaDriver
 /-
   Line-protocol driver of the executable model (`rbdl_model`): reads the same case file as the
   C++ harness (`harness/driver.cc`) from stdin, executes every operation over exact rationals
@@ -143,6 +144,7 @@ structure DS where
       state (bit 0, 1, 2): set by UK / UKC, cleared by everything that may touch state or workspace -/
   kfresh : Nat := 0
   geo : GeomDriver.GS := {}
+  lua : Rbdl.LuaDriver.LS := {}
 
 def DS.fresh (id : String) : DS :=
   let m : ModelS Q := ModelS.init
@@ -845,6 +847,13 @@ def step0 (d : DS) (line : String) : DS × Option String :=
        | (n, b) :: more =>
          let r := more.foldl (fun r nb => also r d nb.1 nb.2) (out d n b)
          (r.1, some r.2))
+    | "luadesc" => ({ d with lua := LuaDriver.descOp (fun s => (parseRat s).getD 0) d.lua rest }, none)
+    | "ldload" =>
+      let r := LuaDriver.loadOp d.lua rest
+      let d := { d with m := r.m, w := initWS r.m, sb := r.sb, cset := r.cset, actuation := [], lastFDC := [] }
+      let (d, s) := out { d with vplus := fun _ => 0, lua := { d.lua with rowNames := r.rowNames } } cmd r.msg
+      (d, some s)
+    | "csfull" => let (d, s) := out d cmd (LuaDriver.csFull showList d.cset d.lua.rowNames); (d, some s)
     | "poison" =>
       let (seed, _) := t.nat
       ({ d with w := poison d.m d.w seed }, none)
